@@ -28,7 +28,7 @@
 (***************************************************************************)
 EXTENDS Integers, Sequences, FiniteSets, TLC
 
-CONSTANTS Families,   \* subset of {"enc","fac","mo","ltf","uf"}
+CONSTANTS Families,   \* subset of {"enc","fac","mo","ltf","uf","mm"}  (mm: MoveMethod, run by the C05 check)
           MaxA,       \* client snippets in module a
           MaxB,       \* client snippets in module b
           MaxTotal,   \* client snippets in total
@@ -83,7 +83,10 @@ Static(name, params, body) == Def("static", name, params, body, <<>>)
 Class(name, methods)       == Def("class", name, <<>>, <<>>, methods)
 
 \* a program
-Prog(defs, a, b, im, bnames) == [defs |-> defs, a |-> a, b |-> b, imp |-> im, bnames |-> bnames]
+\* (bdefs: definitions of module b, after its import line; only the MoveMethod family uses them)
+Prog(defs, a, b, im, bnames) ==
+  [defs |-> defs, a |-> a, b |-> b, imp |-> im, bnames |-> bnames, bdefs |-> <<>>]
+AllDefs(P) == P.defs \o P.bdefs
 
 (* ------------------------------------------------------------------ *)
 (* Small helpers                                                      *)
@@ -94,8 +97,8 @@ Flat(ss) == IF ss = <<>> THEN <<>> ELSE Head(ss) \o Flat(Tail(ss))
 RECURSIVE SumSeq(_)
 SumSeq(s) == IF s = <<>> THEN 0 ELSE Head(s) + SumSeq(Tail(s))
 IndexOf(s, x) == CHOOSE i \in DOMAIN s : s[i] = x
-HasDef(P, name) == \E i \in DOMAIN P.defs : P.defs[i].name = name
-DefOf(P, name) == P.defs[CHOOSE i \in DOMAIN P.defs : P.defs[i].name = name]
+HasDef(P, name) == \E i \in DOMAIN AllDefs(P) : AllDefs(P)[i].name = name
+DefOf(P, name) == AllDefs(P)[CHOOSE i \in DOMAIN AllDefs(P) : AllDefs(P)[i].name = name]
 HasMethod(P, c, m) == HasDef(P, c) /\ \E i \in DOMAIN DefOf(P, c).methods : DefOf(P, c).methods[i].name = m
 Method(P, c, m) == LET ms == DefOf(P, c).methods IN ms[CHOOSE i \in DOMAIN ms : ms[i].name = m]
 \* the bodies of all functions and methods; the nested function called name (searched one level deep)
@@ -292,9 +295,10 @@ AugTok(op) == CASE op = "+" -> "+=" [] op = "*" -> "*=" [] op = "-" -> "-=" [] o
 \* context: module, import style, enclosing class, enclosing function and its parameters
 \* (outer: the method a nested function sits in, "" otherwise)
 Ctx(mod, im, self, fn, params) ==
-  [mod |-> mod, imp |-> im, self |-> self, fn |-> fn, params |-> params, outer |-> ""]
+  [mod |-> mod, imp |-> im, self |-> self, fn |-> fn, params |-> params, outer |-> "",
+   here |-> {}]      \* names defined in this very module (module b's own classes need no a. prefix)
 
-ModPrefix(c) == IF c.mod = "b" /\ c.imp = "import" THEN <<Tk("a"), Tk(".")>> ELSE <<>>
+ModPrefixFor(c, name) == IF c.mod = "b" /\ c.imp = "import" /\ name \notin c.here THEN <<Tk("a"), Tk(".")>> ELSE <<>>
 VarTok(x, c) ==
   IF c.outer # "" THEN T(x, <<IF x \in c.params THEN "nparam" ELSE "nlocal", c.self, c.outer, c.fn, x>>)
   ELSE IF c.fn # "" /\ x \notin c.params THEN T(x, <<"local", c.self, c.fn, x>>)
@@ -309,8 +313,8 @@ TokArgs(es, i, c) ==
 TokE(e, c) ==
   CASE e.k = "int"  -> <<Tk(IntTok(e.n))>>
     [] e.k = "var"  -> <<VarTok(e.s, c)>>
-    [] e.k = "cls"  -> ModPrefix(c) \o <<T(e.s, <<"class", e.s>>)>>
-    [] e.k = "fref" -> ModPrefix(c) \o <<T(e.s, <<"func", e.s>>)>>
+    [] e.k = "cls"  -> ModPrefixFor(c, e.s) \o <<T(e.s, <<"class", e.s>>)>>
+    [] e.k = "fref" -> ModPrefixFor(c, e.s) \o <<T(e.s, <<"func", e.s>>)>>
     [] e.k = "attr" -> TokE(e.xs[1], c) \o <<Tk("."), T(e.s, <<"field", TyE(e.xs[1], c.self), e.s>>)>>
     [] e.k = "bin"  -> Paren(e.xs[1], c) \o <<Tk(e.s)>> \o Paren(e.xs[2], c)
     [] e.k = "kwarg" -> <<Tk(e.s), Tk("=")>> \o TokE(e.xs[1], c)
@@ -319,7 +323,7 @@ TokE(e, c) ==
                         \o <<Tk("."), T(e.s, <<"method", TyE(e.xs[1], c.self), e.s>>), Tk("(")>>
                         \o TokArgs(Tail(e.xs), 1, c) \o <<Tk(")")>>
     [] e.k = "isinst" -> <<Tk("isinstance"), Tk("(")>> \o TokE(e.xs[1], c) \o <<Tk(",")>>
-                         \o ModPrefix(c) \o <<T(e.s, <<"class", e.s>>), Tk(")")>>
+                         \o ModPrefixFor(c, e.s) \o <<T(e.s, <<"class", e.s>>), Tk(")")>>
     [] OTHER -> <<Tk("?")>>
 
 TokS(s, c) ==
@@ -341,7 +345,7 @@ TokParams(ps, i, c) ==
 RECURSIVE TokBody(_, _, _)
 \* a nested def: its name is a local of the enclosing function (same tag as its uses)
 TokNested(st, c) ==
-  LET ci == [Ctx(c.mod, c.imp, c.self, st.s, Range(st.ps)) EXCEPT !.outer = c.fn]
+  LET ci == [Ctx(c.mod, c.imp, c.self, st.s, Range(st.ps)) EXCEPT !.outer = c.fn, !.here = c.here]
   IN <<Tk("def"), VarTok(st.s, c), Tk("(")>> \o TokParams(st.ps, 1, ci) \o <<Tk(")"), Tk(":"), Tk("NL"), Tk("IN")>>
      \o TokBody(st.b, 1, ci) \o <<Tk("DE")>>
 TokBody(ss, i, c) ==
@@ -353,7 +357,7 @@ TokBody(ss, i, c) ==
        \o TokBody(ss, i + 1, c)
 
 TokFunc(f, c0) ==
-  LET c == Ctx(c0.mod, c0.imp, c0.self, f.name, Range(f.params))
+  LET c == [Ctx(c0.mod, c0.imp, c0.self, f.name, Range(f.params)) EXCEPT !.here = c0.here]
   IN (IF f.kind = "static" THEN <<Tk("@"), Tk("staticmethod"), Tk("NL")>> ELSE <<>>)
      \o <<Tk("def"), T(f.name, IF c0.self = "" THEN <<"func", f.name>> ELSE <<"method", c0.self, f.name>>),
           Tk("(")>> \o TokParams(f.params, 1, c) \o <<Tk(")"), Tk(":"), Tk("NL"), Tk("IN")>>
@@ -365,7 +369,7 @@ TokMethods(ms, i, c) == IF i > Len(ms) THEN <<>> ELSE TokFunc(ms[i], c) \o TokMe
 TokDef(d, c) ==
   IF d.kind = "class"
   THEN <<Tk("class"), T(d.name, <<"class", d.name>>), Tk("("), Tk("object"), Tk(")"), Tk(":"), Tk("NL"), Tk("IN")>>
-       \o TokMethods(d.methods, 1, Ctx(c.mod, c.imp, d.name, "", {})) \o <<Tk("DE")>>
+       \o TokMethods(d.methods, 1, [Ctx(c.mod, c.imp, d.name, "", {}) EXCEPT !.here = c.here]) \o <<Tk("DE")>>
   ELSE TokFunc(d, c)
 
 RECURSIVE TokDefs(_, _, _)
@@ -378,11 +382,12 @@ TokNames(P, ns, i) ==
        \o (IF i < Len(ns) THEN <<Tk(",")>> ELSE <<>>) \o TokNames(P, ns, i + 1)
 
 Toks(P, mod) ==
-  LET c == Ctx(mod, P.imp, "", "", {})
+  LET c == [Ctx(mod, P.imp, "", "", {}) EXCEPT
+              !.here = IF mod = "b" THEN {P.bdefs[i].name : i \in DOMAIN P.bdefs} ELSE {}]
   IN IF mod = "a" THEN TokDefs(P.defs, 1, c) \o TokBody(P.a, 1, c)
      ELSE (IF P.imp = "import" \/ P.bnames = <<>> THEN <<Tk("import"), Tk("a"), Tk("NL")>>
            ELSE <<Tk("from"), Tk("a"), Tk("import")>> \o TokNames(P, P.bnames, 1) \o <<Tk("NL")>>)
-          \o TokBody(P.b, 1, c)
+          \o TokDefs(P.bdefs, 1, c) \o TokBody(P.b, 1, c)
 
 (* ------------------------------------------------------------------ *)
 (* Generic traversals                                                 *)
@@ -419,6 +424,7 @@ ClassNames(P, c) ==
 Req(kind, tgt, cls, name, new, glob) ==
   [kind |-> kind, tgt |-> tgt, cls |-> cls, name |-> name, new |-> new, glob |-> glob,
    host |-> "",      \* for a target inside a nested function: the method the nested function sits in
+   attr |-> "",      \* MoveMethod: the attribute of the class whose value's class receives the method
    get |-> IF kind = "enc" THEN "get_" \o name ELSE "", set |-> IF kind = "enc" THEN "set_" \o name ELSE ""]
 NoReq == Req("", <<>>, "", "", "", FALSE)
 
@@ -547,6 +553,43 @@ FzS(s, names, obj) ==
        [] OTHER -> [s EXCEPT !.xs = kids]
 FzBody(ss, names, obj) == [i \in DOMAIN ss |-> FzS(ss[i], names, obj)]
 
+VarsOf(ps) == [i \in DOMAIN ps |-> V(ps[i])]
+
+\* --- renaming a variable throughout a body (MoveMethod: the old self becomes host)
+RECURSIVE RnE(_, _, _), RnEs(_, _, _, _)
+RnEs(es, i, from, to) == IF i > Len(es) THEN <<>> ELSE <<RnE(es[i], from, to)>> \o RnEs(es, i + 1, from, to)
+RnE(e, from, to) == IF e.k = "var" /\ e.s = from THEN V(to) ELSE [e EXCEPT !.xs = RnEs(e.xs, 1, from, to)]
+RnBody(ss, from, to) ==
+  [i \in DOMAIN ss |-> [ss[i] EXCEPT !.xs = RnEs(ss[i].xs, 1, from, to),
+                                    !.s = IF ss[i].k \in {"assign", "augvar"} /\ ss[i].s = from THEN to ELSE @]]
+BodyUsesVar(ss, x) == \E i \in DOMAIN ss : StmtUsesVar(ss[i], x)
+
+\* MoveMethod(method q.name of class q.cls, attribute q.attr whose value is an instance of class
+\* dcls, new name q.new): the body becomes a method of dcls - the old self is passed as `host`
+\* when the body uses it - and the old method delegates to it.
+MovedMethod(q, f) ==
+  LET sn == f.params[1]
+      hostUsed == BodyUsesVar(f.body, sn)
+  IN Fn(q.new, <<"self">> \o (IF hostUsed THEN <<"host">> ELSE <<>>) \o Tail(f.params), RnBody(f.body, sn, "host"))
+Delegation(q, f) ==
+  LET sn == f.params[1]
+      hostUsed == BodyUsesVar(f.body, sn)
+  IN <<Ret(MC(A(V(sn), q.attr), q.new, (IF hostUsed THEN <<V(sn)>> ELSE <<>>) \o VarsOf(Tail(f.params))))>>
+\* the class of the value the constructor stores in attribute attr of class c:  self.attr = D(...)
+AttrClassOf(P, c, attr) ==
+  LET b == Method(P, c, "__init__").body
+      st == b[CHOOSE i \in DOMAIN b : b[i].k = "setattr" /\ b[i].s = attr]
+  IN st.xs[2].xs[1].s
+MoveMethodIn(q, P, defs) ==
+  LET f == Method(P, q.cls, q.name)
+      dcls == AttrClassOf(P, q.cls, q.attr)
+  IN [i \in DOMAIN defs |->
+        IF defs[i].name = q.cls
+        THEN [defs[i] EXCEPT !.methods = [j \in DOMAIN @ |-> IF @[j].name = q.name
+                                                             THEN [@[j] EXCEPT !.body = Delegation(q, f)] ELSE @[j]]]
+        ELSE IF defs[i].name = dcls THEN [defs[i] EXCEPT !.methods = @ \o <<MovedMethod(q, f)>>]
+        ELSE defs[i]]
+
 TrFunc(q, P, f, self) ==
   \* Encapsulate leaves the function that defines the field alone (it is the
   \* constructor of the fragment); UseFunction leaves the function itself alone
@@ -562,7 +605,6 @@ Getter(q) == Fn(q.get, <<"self">>, <<Ret(A(V("self"), q.name))>>)
 Setter(q) == Fn(q.set, <<"self", "value">>, <<Set(V("self"), q.name, V("value"))>>)
 
 InitParams(P, c) == Tail(Method(P, c, "__init__").params)
-VarsOf(ps) == [i \in DOMAIN ps |-> V(ps[i])]
 
 \* insert d after the top-level definition named after
 InsertAfter(defs, after, d) ==
@@ -644,6 +686,7 @@ Refactor(q, P) ==
                                                 ELSE @[j]]]
                     ELSE @[i]]]
        [] q.kind = "uf" -> [P EXCEPT !.defs = tdefs, !.a = ta, !.b = tb]
+       [] q.kind = "mm" -> [P EXCEPT !.defs = MoveMethodIn(q, P, @), !.bdefs = MoveMethodIn(q, P, @)]
        [] OTHER -> P
 
 (* ------------------------------------------------------------------ *)
@@ -701,6 +744,20 @@ MB1 == <<Set(self, "f", B("+", A(self, "f"), x)), Ret(A(self, "f"))>>
 MB2 == <<Aug(self, "f", "+", x), Ret(A(self, "g"))>>
 MB3 == <<Ret(B("*", x, I(2)))>>
 
+\* MoveMethod family: D is the class of C's attribute g; C has methods that use nothing of
+\* self, a field, the attribute itself, a sibling method, a local, and one whose self is `this`
+ClassDm == Class("D", <<Fn("__init__", <<"self", "c">>, <<Set(self, "k", V("c"))>>),
+                        Fn("bump", <<"self", "z">>, <<Aug(self, "k", "+", V("z")), Ret(A(self, "k"))>>)>>)
+ClassCm == Class("C", <<Fn("__init__", <<"self", "v">>, <<Set(self, "f", V("v")), Set(self, "g", Call(K("D"), <<I(2)>>))>>),
+                        Fn("ma", <<"self", "x">>, <<Ret(B("*", x, I(2)))>>),
+                        Fn("mb", <<"self", "x">>, <<Ret(B("+", A(self, "f"), x))>>),
+                        Fn("mc", <<"self", "x", "y">>, <<Aug(self, "f", "+", y),
+                                                        Ret(B("+", MC(A(self, "g"), "bump", <<x>>), A(A(self, "g"), "k")))>>),
+                        Fn("md", <<"self", "x">>, <<Asg("t", B("*", MC(self, "mb", <<x>>), I(2))), Set(self, "f", t),
+                                                   Ret(B("+", t, I(1)))>>),
+                        Fn("me", <<"this", "x">>, <<Set(A(V("this"), "g"), "k", x), Ret(A(V("this"), "f"))>>),
+                        Fn("n", <<"self">>, <<Ret(A(self, "f"))>>)>>)
+
 Variants(f) ==
   CASE f = "enc" -> << Var(<<ClassC(<<MethM(MB1)>>), ClassD>>, ""),
                        Var(<<ClassC(<<MethM(MB2)>>), ClassD>>, ""),
@@ -745,6 +802,8 @@ Variants(f) ==
                        Var(<<ClassC(<<MethM(MB1)>>),
                              Fn("show", <<"x">>, <<Pr(<<x>>)>>),
                              Fn("add3", <<"x", "y">>, <<Asg("t", B("+", x, y)), Ret(B("+", t, I(3)))>>)>>, "") >>
+    [] f = "mm"  -> << [defs |-> <<ClassDm, ClassCm>>, feat |-> "", bdefs |-> <<>>],       \* both classes in module a
+                       [defs |-> <<ClassDm>>, feat |-> "", bdefs |-> <<ClassCm>>] >>       \* C in module b, D in a
     [] OTHER -> <<>>
 
 PoolOf(f) ==
@@ -808,6 +867,13 @@ PoolOf(f) ==
         Ent(<<Pr(<<B("*", MC(o, "m", <<I(1)>>), MC(o, "m", <<I(1)>>))>>)>>, "impure", {1}),
         Ent(<<Asg("w", B("+", A(o, "f"), I(2))), Asg("z", B("+", V("w"), I(3))), Pr(<<V("z"), V("w")>>)>>,
             "livetemp", {2}) >>
+    [] f = "mm" -> <<
+        Ent(<<Pr(<<MC(o, "ma", <<I(3)>>)>>)>>, "", {}),
+        Ent(<<Pr(<<MC(o, "mb", <<I(3)>>)>>)>>, "", {}),
+        Ent(<<Pr(<<MC(o, "mc", <<I(1), I(4)>>)>>)>>, "", {}),
+        Ent(<<Pr(<<MC(o, "md", <<A(o, "f")>>)>>)>>, "", {}),
+        Ent(<<Pr(<<MC(o, "me", <<I(7)>>), MC(o, "n", <<>>)>>)>>, "", {}),
+        Ent(<<Asg("w", MC(o, "mc", <<KW("x", I(2)), KW("y", I(1))>>)), Pr(<<V("w"), A(A(o, "g"), "k")>>)>>, "", {}) >>
     [] OTHER -> <<>>
 
 PreA(f) == IF f = "enc" THEN <<Asg("o", NewC(1)), Asg("p", Call(K("D"), <<I(3)>>))>> ELSE <<Asg("o", NewC(1))>>
@@ -816,10 +882,19 @@ Post(f) == IF f = "enc" THEN <<Pr(<<A(o, "f"), A(o, "g"), A(A(p, "h"), "f"), A(p
            ELSE <<Pr(<<A(o, "f"), A(o, "g")>>)>>
 
 Snips(f, idxs) == Flat([i \in DOMAIN idxs |-> PoolOf(f)[idxs[i]].ss])
+\* module a can only have clients of C when C is defined there
+ClientsInA(f, v) == ~(f = "mm" /\ Variants(f)[v].bdefs # <<>>)
+PostM == <<Pr(<<A(o, "f"), A(A(o, "g"), "k")>>)>>
 Build(f, v, im, ia, ib) ==
   LET defs == Variants(f)[v].defs
-  IN Prog(defs, PreA(f) \o Snips(f, ia) \o Post(f), PreB(f) \o Snips(f, ib) \o Post(f), im,
-          IF im = "from" THEN [i \in DOMAIN defs |-> defs[i].name] ELSE <<>>)
+      names == IF im = "from" THEN [i \in DOMAIN defs |-> defs[i].name] ELSE <<>>
+  IN IF f = "mm"
+     THEN [Prog(defs,
+                IF ClientsInA(f, v) THEN <<Asg("o", NewC(1))>> \o Snips(f, ia) \o PostM
+                ELSE <<Asg("d", Call(K("D"), <<I(5)>>)), Pr(<<MC(V("d"), "bump", <<I(1)>>)>>)>>,
+                <<Asg("o", NewC(4))>> \o Snips(f, ib) \o PostM, im, names)
+           EXCEPT !.bdefs = Variants(f)[v].bdefs]
+     ELSE Prog(defs, PreA(f) \o Snips(f, ia) \o Post(f), PreB(f) \o Snips(f, ib) \o Post(f), im, names)
 
 \* the optional features a program uses
 FeatsUsed(f, v, ia, ib) ==
@@ -852,6 +927,8 @@ Requests(f, P) ==
                                  st \in NestedDefs(Method(P, "C", "m").body)}
     [] f = "uf"  -> {Req("uf", <<"func", n>>, "", n, "", FALSE) :
                        n \in {g \in GlobalFuncs(P) : UfShape(DefOf(P, g)) # "other"}}
+    [] f = "mm"  -> {[Req("mm", <<"method", "C", n>>, "C", n, "mv", FALSE) EXCEPT !.attr = "g"] :
+                       n \in {"ma", "mb", "mc", "md", "me"}}
     [] OTHER -> {}
 
 (* ------------------------------------------------------------------ *)
@@ -879,6 +956,7 @@ Init ==
 
 AddA(i) ==
   /\ phase = "build" /\ sb = <<>> /\ Len(sa) < MaxA /\ Len(sa) + Len(sb) < MaxTotal
+  /\ ClientsInA(fam, variant)
   /\ Allowed(fam, variant, i)
   /\ Len(FeatsUsed(fam, variant, Append(sa, i), sb)) <= 1
   /\ sa' = Append(sa, i)
